@@ -41,12 +41,14 @@ pub struct Profile {
 	pub reorgs: bool,
 	/// forwarding-deadline scenarios on a line of three nodes (C08)
 	pub deadline_sweep: bool,
+	/// run only this kind of deadline scenario
+	pub deadline_kind: Option<u64>,
 	/// every node also feeds a real MonitorUpdatingPersister over a recording store (C19 c)
 	pub mup_shadow: bool,
 }
 impl Profile {
 	pub fn for_prop(prop: &str, thorough: bool) -> Profile {
-		let base = Profile { prop: prop.to_string(), steps: if thorough { 1500 } else { 600 }, nodes: 2, allow_async: false, allow_deferred: false, allow_disconnect: true, allow_fee_updates: true, allow_ticks: true, coop_close_at_end: true, multi_hop: false, mid_settles: true, allow_restart: false, allow_force_close: false, persist_manager_often: false, parallel: false, pay_workload: false, onchain: false, chain_equiv: false, reorgs: false, deadline_sweep: false, mup_shadow: false };
+		let base = Profile { prop: prop.to_string(), steps: if thorough { 1500 } else { 600 }, nodes: 2, allow_async: false, allow_deferred: false, allow_disconnect: true, allow_fee_updates: true, allow_ticks: true, coop_close_at_end: true, multi_hop: false, mid_settles: true, allow_restart: false, allow_force_close: false, persist_manager_often: false, parallel: false, pay_workload: false, onchain: false, chain_equiv: false, reorgs: false, deadline_kind: None, deadline_sweep: false, mup_shadow: false };
 		match prop {
 			"C01" => base,
 			"C05" => Profile { allow_async: true, allow_restart: true, allow_force_close: true, ..base },
@@ -869,7 +871,7 @@ fn drive(sim: &mut Sim, prof: &Profile, rng: &mut Rng, rep: &mut Report, ctype: 
 	}
 	if prof.deadline_sweep {
 		sim.w.step += 1;
-		crate::deadlines::phase(sim, rng, rep)?;
+		crate::deadlines::phase(sim, rng, rep, prof.deadline_kind)?;
 		sim.dispatch(rep);
 		sim.end(rep);
 		return Ok(());
